@@ -342,9 +342,11 @@ def signature(prop, v):
                 tags=sorted(v.get("tags") or []))
 
 
-def match_known(sig, known):
+def match_known(sig, known, v=None):
     for e in known:
         m = e["match"]
+        if "got" in m and not re.fullmatch(m["got"], str((v or {}).get("got", "")), re.S):
+            continue
         if e["property"] != sig["property"]:
             continue
         if "tag" in m and m["tag"] not in sig["tags"]:
@@ -474,7 +476,7 @@ def main_check(prop, tier, only_lanes=None, keep=False):
     new_viols, known_hits = [], {}
     for v in all_viols:
         sig = signature(prop, v)
-        e = match_known(sig, known)
+        e = match_known(sig, known, v)
         if e:
             known_hits.setdefault(e["id"], []).append(v)
         else:
